@@ -407,3 +407,74 @@ Proof.
   f_equal. apply IH. intros b Hb. apply H. right. exact Hb.
 Qed.
 
+
+(* ---------------------------------------------------------------- generic traversal *)
+(* the same decomposition for an arbitrary predicate [P] on machines (kept along Done and Fail):
+   [prop_step leaf] takes one structural step on a goal [oprop P e] or [P m'], calling [leaf] on
+   goals [P (m <| ... |>)]; sends produce the leaf goals "P after appending the output" and
+   "P after queueing the removal" *)
+Definition oprop (P : M -> Prop) (r : outcome M) : Prop :=
+  match r with Done m | Fail m => P m | Panic _ => True end.
+
+Lemma oprop_bind (P : M -> Prop) x f :
+  oprop P x -> (forall m1, P m1 -> oprop P (f m1)) -> oprop P (x >>> f).
+Proof. destruct x; cbn; auto. Qed.
+
+Lemma oprop_foldO {A} (P : M -> Prop) (f : M -> A -> outcome M) l m :
+  (forall m a, P m -> oprop P (f m a)) -> P m -> oprop P (foldO f l m).
+Proof.
+  intros Hf. revert m. induction l as [|a l IH]; intros m Hm; cbn; [exact Hm|].
+  specialize (Hf m a Hm). destruct (f m a); cbn in *; auto.
+Qed.
+
+Lemma prop_foldl {A} (P : M -> Prop) (f : M -> A -> M) l m :
+  (forall m a, P m -> P (f m a)) -> P m -> P (foldl f m l).
+Proof. intros Hf. revert m. induction l as [|a l IH]; intros m Hm; cbn; auto. Qed.
+
+Lemma prop_foldr {A} (P : M -> Prop) (f : A -> M -> M) l m :
+  (forall m a, P m -> P (f a m)) -> P m -> P (foldr f m l).
+Proof. intros Hf Hm. induction l as [|a l IH]; cbn; auto. Qed.
+
+Lemma oprop_send (P : M -> Prop) m c x from :
+  P (m <| mo := mo m ++ [(c, x, from)] |>) -> P m -> oprop P (send m c x from).
+Proof.
+  intros H1 H2. unfold send. destruct (conns (ms m) !! c) as [cs|]; [|exact I].
+  destruct (cs_alive cs); cbn; assumption.
+Qed.
+
+Lemma oprop_send_or_remove (P : M -> Prop) m c x from :
+  P (m <| mo := mo m ++ [(c, x, from)] |>) -> P (push_remove m c false) -> oprop P (send_or_remove m c x from).
+Proof.
+  intros H1 H2. unfold send_or_remove, send. destruct (conns (ms m) !! c) as [cs|]; [|exact I].
+  destruct (cs_alive cs); cbn; assumption.
+Qed.
+
+Lemma oprop_send_ignore (P : M -> Prop) m c x from :
+  P (m <| mo := mo m ++ [(c, x, from)] |>) -> P m -> oprop P (send_ignore m c x from).
+Proof.
+  intros H1 H2. unfold send_ignore, send. destruct (conns (ms m) !! c) as [cs|]; [|exact I].
+  destruct (cs_alive cs); cbn; assumption.
+Qed.
+
+Lemma oprop_impl (P Q : M -> Prop) r : (forall m, P m -> Q m) -> oprop P r -> oprop Q r.
+Proof. intros H. destruct r; cbn; auto. Qed.
+
+Ltac prop_step leaf :=
+  match goal with
+  | |- oprop _ (Panic _) => exact I
+  | |- oprop _ (Done _) => cbn [oprop]
+  | |- oprop _ (Fail _) => cbn [oprop]
+  | |- oprop _ (_ >>> _) => apply oprop_bind; [|intros ? ?]
+  | |- oprop _ (foldO _ _ _) => apply oprop_foldO; [intros ? ? ?; cbv beta|]
+  | |- oprop _ (send_or_remove _ _ _ _) => apply oprop_send_or_remove
+  | |- oprop _ (send_ignore _ _ _ _) => apply oprop_send_ignore
+  | |- oprop _ (send _ _ _ _) => apply oprop_send
+  | |- oprop _ (match ?x with _ => _ end) => destruct x eqn:?
+  | |- ?P (foldl ?f ?m ?l) => apply (prop_foldl P f l m); [intros ? ? ?; cbv beta|]
+  | |- ?P (foldr ?f ?m ?l) => apply (prop_foldr P f l m); [intros ? ? ?; cbv beta|]
+  | |- _ (match ?x with _ => _ end) => destruct x eqn:?
+  | |- _ => leaf
+  end.
+
+(* a leaf for predicates that do not look at the changed fields: the hypothesis is convertible *)
+Ltac leaf_conv := idtac; match goal with H : ?P ?m |- ?P _ => exact H end.
